@@ -25,6 +25,13 @@ structure Tables where
   serverRegs : List (String × String × String)
   /-- reference client, `switch req.Compression`: enum ↦ (accept registrations, send names) -/
   clientRegs : List (Nat × List (String × String × String) × List String)
+  /-- raw-payload encoders (`internal.WriteRawMessageContents`, an item of
+  `WriteRawStreamContents`) on enum values 0..8: the algorithm whose reference decoder returns
+  the payload -/
+  rawEncoderOf : List (Nat × String × String)
+  /-- raw-payload encoder on a present-but-empty payload, enum values 0..8: written, and the
+  matching decompressor and the library both return the empty string -/
+  rawEmptyOf : List (Nat × Bool)
 
 /-- names the tables are probed with: the six, the empty string, other letter case, and
 names that must not be understood -/
@@ -49,6 +56,10 @@ def consistent (t : Tables) : Bool :=
   -- enum ↦ algorithm, the same for compressor and decompressor; 7 and 8 unsupported
   t.compressorOf == enums.map (fun e => (e, labelOf (algOfEnum e))) &&
   t.decompressorOf == enums.map (fun e => (e, labelOf (algOfEnum e))) &&
+  -- the raw-payload encoders use the same table, for a message and for a stream item, and a
+  -- present-but-empty payload is written as the encoding of the empty string
+  t.rawEncoderOf == enums.map (fun e => (e, labelOf (algOfEnum e), labelOf (algOfEnum e))) &&
+  t.rawEmptyOf == enums.map (fun e => (e, (algOfEnum e).isSome)) &&
   -- the name the reference server expects for an enum value (exactly one; identity also when absent)
   t.checkOf == enums.map (fun e => (e, (nameOfEnum e).toList, e == 1)) &&
   -- the wire tracer understands exactly the six names (any letter case, "" = identity)
@@ -71,5 +82,56 @@ def consistent (t : Tables) : Bool :=
 def historyOk (expected : List (Option Bytes)) (outs : List Out) : Bool :=
   expected.length == outs.length &&
   (expected.zip outs).all (fun p => p.2 != .panic && (match p.1 with | some b => p.2 == .data b | none => true))
+
+/-! ## raw-payload encoders -/
+
+/-- one payload handed to the raw-payload encoder: `data = none` is an absent payload (nil
+contents / unset oneof), `some []` a present-but-empty one -/
+structure RawItem where
+  enc : Nat
+  data : Option Bytes
+  flags : Nat
+deriving DecidableEq, Repr
+
+/-- one frame found in what the encoder wrote, its payload decoded by a fresh decompressor of
+`internal/compression` for the item's enum value (`dec`) and by the third-party library used
+directly (`ref`); `none` = the decoder failed -/
+structure RawFrame where
+  flags : Nat
+  len : Nat
+  payload : Bytes
+  dec : Option Bytes
+  ref : Option Bytes
+deriving DecidableEq, Repr
+
+/-- the items the round trip is claimed for: one of the six encodings (or unspecified), flags
+that fit the envelope's byte -/
+def rawClaimed (items : List RawItem) : Bool :=
+  items.all (fun it => (algOfEnum it.enc).isSome && it.flags ≤ 255)
+
+/-- "decompressing what the matching compressor produced returns the original bytes for any
+input including the empty one", through the raw-payload encoders: nothing fails, the output
+is exactly one frame per item, and every present payload — also the empty one — comes back
+byte-exact from the repository's decompressor and from the library; an absent payload writes
+nothing. -/
+def rawOk (items : List RawItem) (err : Bool) (frames : List RawFrame) (rest : Bytes) : Bool :=
+  !err && rest.isEmpty && frames.length == items.length &&
+  (items.zip frames).all (fun p =>
+    p.2.flags == p.1.flags && p.2.len == p.2.payload.length &&
+    (match p.1.data with
+     | some d => p.2.dec == some d && p.2.ref == some d
+     | none => p.2.payload.isEmpty))
+
+/-! ## wire tracer -/
+
+/-- what the wire tracer must report for the messages of one response body: `expected[i] =
+some b` for a message whose end-stream content is known (a valid encoding of `b`, or `b` sent
+uncompressed; `some []` also for a message that is no end-stream message: nothing may be
+reported for it), `none` for a damaged one (anything may be reported). `reported[i]` is the
+content reported for the i-th message (`[]`: none). A bad message never changes what is
+reported for a later valid one. -/
+def tracerOk (expected : List (Option Bytes)) (reported : List Bytes) : Bool :=
+  expected.length == reported.length &&
+  (expected.zip reported).all (fun p => match p.1 with | some b => p.2 == b | none => true)
 
 end ConfModel.CompressionSpec
